@@ -2,7 +2,7 @@
    frames, clone / cat / fillna_col on objects that view numbered storages. *)
 From Coq Require Import ZArith List Bool Arith Lia.
 From PF Require Import Lib.ListX Lib.PySlice Model.Ragged Model.RaggedRun Model.RaggedCat Model.RaggedStore.
-From PF Require Import Proofs.ListXFacts.
+From PF Require Import Proofs.ListXFacts Proofs.RaggedCatProofs.
 Import ListNotations.
 
 (* ---------------------------------------------------------------------- *)
@@ -332,5 +332,199 @@ Section StoreProofs.
         destruct (met_cat A ts d); [|discriminate]. cbn [obind] in E. injection E as <- <-. auto. }
       destruct Es as [-> ->]. split; [reflexivity|]. left. exists h. auto.
     - destruct (Hfresh _ E) as [H1 H2]. split; [exact H1|]. right. exact H2.
+  Qed.
+
+  (* ------------------------------------------------------------------ *)
+  (* MultiEmbeddingTensor: read-back after an in-place write and after cat *)
+  Lemma tslice_mid : forall {B} (a m z : list B) s l, length a = s -> length m = l ->
+    tslice (a ++ m ++ z) s (s + l) = m.
+  Proof.
+    intros B a m z s l Ha Hm. unfold tslice. replace (s + l - s) with l by lia.
+    rewrite skipn_app, skipn_all2 by lia. rewrite Ha, Nat.sub_diag. simpl.
+    rewrite firstn_app, firstn_all2 by lia. rewrite Hm, Nat.sub_diag. simpl. apply app_nil_r.
+  Qed.
+
+  Lemma combine_fst_in : forall {B C} (l1 : list B) (l2 : list C) p, In p (combine l1 l2) -> In (fst p) l1 /\ In (snd p) l2.
+  Proof. intros B C l1 l2 [x y] H. split; [eapply in_combine_l|eapply in_combine_r]; exact H. Qed.
+
+  Lemma map_snd_combine : forall {B C} (l1 : list B) (l2 : list C), length l1 = length l2 ->
+    map snd (combine l1 l2) = l2.
+  Proof.
+    intros B C l1. induction l1 as [|x l1 IH]; intros [|y l2] H; simpl in *; try discriminate; auto.
+    f_equal. apply IH. lia.
+  Qed.
+
+  Lemma e_write_spec : forall (st st' : estore) h new, e_write A st h new = Some st' ->
+    e_read st' h = Some (MkMet (e_nr h) (e_nc h) (MkT2 new (e_w h)) (e_offs h)).
+  Proof.
+    intros st st' h new E. unfold e_write in E.
+    destruct (nth_error st (e_buf h)) as [b|] eqn:Eb; [|discriminate]. cbn [obind] in E.
+    set (old := tslice b (e_r0 h) (e_r0 h + e_nr h)) in *.
+    destruct ((length new =? e_nr h) && (e_r0 h + e_nr h <=? length b)
+              && forallb (fun row => e_c0 h + e_w h <=? length row) old
+              && forallb (fun row => length row =? e_w h) new) eqn:Ec; [|discriminate].
+    injection E as <-.
+    apply andb_true_iff in Ec. destruct Ec as [Ec E4]. apply andb_true_iff in Ec. destruct Ec as [Ec E3].
+    apply andb_true_iff in Ec. destruct Ec as [E1 E2]. apply Nat.eqb_eq in E1. apply Nat.leb_le in E2.
+    rewrite forallb_forall in E3, E4.
+    assert (Hk : e_buf h < length st) by (apply nth_error_Some; congruence).
+    assert (Hold : length old = e_nr h) by (unfold old; rewrite tslice_length by assumption; lia).
+    set (upd := fun p : list A * list A => firstn (e_c0 h) (fst p) ++ snd p ++ skipn (e_c0 h + e_w h) (fst p)).
+    assert (Hmid : length (map upd (combine old new)) = e_nr h).
+    { rewrite map_length, combine_length, Hold, E1. lia. }
+    unfold RaggedStore.e_read. rewrite g_read_update_same by auto. unfold e_view.
+    rewrite (tslice_mid (firstn (e_r0 h) b) (map upd (combine old new)) (skipn (e_r0 h + e_nr h) b))
+      by (try rewrite firstn_length; lia).
+    replace (e_r0 h + e_nr h <=? length (firstn (e_r0 h) b ++ map upd (combine old new) ++ skipn (e_r0 h + e_nr h) b))
+      with true by (symmetry; apply Nat.leb_le; rewrite !app_length, firstn_length, Hmid, skipn_length; lia).
+    assert (Hrow : forall p, In p (combine old new) ->
+                   length (fst p) >= e_c0 h + e_w h /\ length (snd p) = e_w h).
+    { intros p Hp. destruct (combine_fst_in _ _ _ Hp) as [H1 H2].
+      specialize (E3 _ H1). specialize (E4 _ H2). apply Nat.leb_le in E3. apply Nat.eqb_eq in E4. lia. }
+    rewrite (proj2 (forallb_forall _ _)).
+    2: { intros row Hr. apply in_map_iff in Hr. destruct Hr as [p [<- Hp]]. destruct (Hrow p Hp) as [H1 H2].
+         apply Nat.leb_le. unfold upd. rewrite !app_length, firstn_length, skipn_length. lia. }
+    cbn [andb]. f_equal. f_equal. f_equal.
+    rewrite map_map. rewrite <- (map_snd_combine old new) at 2 by lia.
+    apply map_ext_in. intros p Hp. destruct (Hrow p Hp) as [H1 H2]. unfold upd.
+    apply tslice_mid; [rewrite firstn_length; lia|assumption].
+  Qed.
+
+  (* fillna_col at store level: the object reads as the pure fillna_col of what it read before *)
+  Lemma e_fill_read : forall (st st' : estore) h j v, e_fill A is_na st h j v = Some st' ->
+    e_read st' h = (t <- e_read st h ;; met_fillna_col A is_na t j v).
+  Proof.
+    intros st st' h j v E. unfold e_fill in E.
+    destruct (e_read st h) as [t|] eqn:Et; [|discriminate]. cbn [obind] in *.
+    destruct (met_fillna_col A is_na t j v) as [r|] eqn:Er; [|discriminate]. cbn [obind] in E.
+    rewrite (e_write_spec st st' h _ E). f_equal.
+    unfold RaggedStore.e_read, g_read in Et. destruct (nth_error st (e_buf h)) as [b|]; [|discriminate].
+    cbn [obind] in Et. unfold e_view in Et. destruct (_ && _); [|discriminate]. injection Et as <-.
+    unfold met_fillna_col in Er. cbn [eoffs evals t2rows t2w er ec] in Er.
+    repeat match type of Er with
+           | (x <- ?e ;; _) = Some _ => destruct e; [cbn [obind] in Er|discriminate]
+           end.
+    injection Er as <-. reflexivity.
+  Qed.
+
+  (* cat keeps 2-D values tensors well formed *)
+  Lemma t2_cat0_inv : forall vs v, t2_cat0 A vs = Some v ->
+    t2rows v = concat (map (@t2rows A) vs) /\ Forall (fun u => t2w u = t2w v) vs.
+  Proof.
+    intros vs v E. unfold t2_cat0 in E. destruct vs as [|v0 rest]; [discriminate|].
+    destruct (forallb (fun u => t2w u =? t2w v0) rest) eqn:Ew; [|discriminate]. injection E as <-.
+    split; [reflexivity|]. cbn [t2w]. constructor; [reflexivity|].
+    rewrite forallb_forall in Ew. apply Forall_forall. intros u Hu. apply Nat.eqb_eq. auto.
+  Qed.
+
+  Lemma t2_cat1_inv : forall vs v, t2_cat1 A vs = Some v -> exists n,
+    t2rows v = map (fun r => concat (map (fun u => nth r (t2rows u) []) vs)) (seq 0 n)
+    /\ t2w v = sum (map (@t2w A) vs) /\ Forall (fun u => length (t2rows u) = n) vs.
+  Proof.
+    intros vs v E. unfold t2_cat1 in E. destruct vs as [|v0 rest]; [discriminate|].
+    destruct (forallb (fun u => length (t2rows u) =? length (t2rows v0)) rest) eqn:Ew; [|discriminate].
+    injection E as <-. exists (length (t2rows v0)). split; [reflexivity|]. split; [reflexivity|].
+    constructor; [reflexivity|]. rewrite forallb_forall in Ew. apply Forall_forall. intros u Hu. apply Nat.eqb_eq. auto.
+  Qed.
+
+  Lemma met_cat0_ok : forall ts x, Forall met_ok ts -> met_cat0 A ts = Some x -> met_ok x.
+  Proof.
+    intros ts x H E. unfold met_cat0 in E. destruct ts as [|t0 [|t1 ts']]; [discriminate| |].
+    - injection E as <-. inversion H; assumption.
+    - remember (t0 :: t1 :: ts') as ts eqn:Ets.
+      destruct (forallb _ (t1 :: ts')); [|discriminate].
+      destruct (t2_cat0 A (map (@evals A) ts)) as [vals|] eqn:Ev; [|discriminate]. cbn [obind] in E.
+      unfold mk_met in E. destruct (eoffs t0) as [|o0 os]; [discriminate|].
+      destruct ((o0 =? 0) && _); [|discriminate]. injection E as <-.
+      destruct (t2_cat0_inv _ _ Ev) as [Hrows Hw]. unfold met_ok. cbn [evals er]. rewrite Hrows. clear Ev Hrows Ets.
+      rewrite Forall_map in Hw. rewrite map_map. split.
+      + induction H as [|t ts0 [Hl _] _ IH]; simpl; auto.
+        rewrite app_length, Hl. f_equal. apply IH. inversion Hw; assumption.
+      + apply Forall_concat. apply Forall_forall. intros rows Hr.
+        apply in_map_iff in Hr. destruct Hr as [t [<- Ht]].
+        rewrite Forall_forall in H, Hw. destruct (H t Ht) as [_ Hrw]. rewrite <- (Hw t Ht). exact Hrw.
+  Qed.
+
+  Lemma met_cat1_ok : forall ts x, Forall met_ok ts -> met_cat1 A ts = Some x -> met_ok x.
+  Proof.
+    intros ts x H E. unfold met_cat1 in E. destruct ts as [|t0 [|t1 ts']]; [discriminate| |].
+    - injection E as <-. inversion H; assumption.
+    - remember (t0 :: t1 :: ts') as ts eqn:Ets.
+      destruct (forallb _ (t1 :: ts')); [|discriminate].
+      destruct (t2_cat1 A (map (@evals A) ts)) as [vals|] eqn:Ev; [|discriminate]. cbn [obind] in E.
+      destruct (met_cat1_offsets A ts [0]) as [o|]; [|discriminate]. cbn [obind] in E.
+      unfold mk_met in E. destruct o as [|o0 os]; [discriminate|].
+      destruct ((o0 =? 0) && _); [|discriminate]. injection E as <-.
+      destruct (t2_cat1_inv _ _ Ev) as [n [Hrows [Hwid Hn]]]. unfold met_ok. cbn [evals er].
+      rewrite Hrows, Hwid. rewrite Forall_map in Hn.
+      assert (H0 : n = er t0).
+      { rewrite Ets in H, Hn. inversion H as [|? ? [Hl _] _]. inversion Hn as [|? ? Hn0 _]. congruence. }
+      split.
+      + rewrite map_length, seq_length. exact H0.
+      + apply Forall_forall. intros row Hr. apply in_map_iff in Hr. destruct Hr as [r [<- Hr]]. apply in_seq in Hr.
+        rewrite !map_map. clear Ev Hrows Hwid Ets H0. induction H as [|t ts0 [_ Hrw] _ IH]; simpl; auto.
+        inversion Hn as [|? ? Hn1 Hn2]; subst. rewrite app_length, IH by assumption. f_equal.
+        rewrite Forall_forall in Hrw. apply Hrw. apply nth_In. lia.
+  Qed.
+
+  Lemma met_cat_ok : forall ts d x, Forall met_ok ts -> met_cat A ts d = Some x -> met_ok x.
+  Proof.
+    intros ts d x H E. unfold met_cat in E. destruct ts as [|t ts']; [discriminate|].
+    destruct (normalize_dim d) as [k|]; [|discriminate]. cbn [obind] in E.
+    destruct (k =? 0); [eapply met_cat0_ok|eapply met_cat1_ok]; eauto.
+  Qed.
+
+  Lemma mapM_e_read_ok : forall (st : estore) hs ts, mapM (e_read st) hs = Some ts -> Forall met_ok ts.
+  Proof.
+    intros st hs. induction hs as [|h hs IH]; intros ts E; simpl in E.
+    - injection E as <-. constructor.
+    - destruct (e_read st h) as [t|] eqn:Et; [|discriminate]. destruct (mapM (e_read st) hs) as [ts'|]; [|discriminate].
+      injection E as <-. constructor; [eapply e_read_ok; eauto|auto].
+  Qed.
+
+  (* cat at store level, full form: arguments untouched, and the result -- the element itself for a
+     one-element list, otherwise an object on a new storage -- reads as the pure cat of what the arguments read *)
+  Definition e_pure_cat (ts : list (met A)) (d : Z) (tf : bool) : option (met A) :=
+    if tf then x <- cat_tensor_data A junk_o junk_v (map TMet ts) d ;; as_met A x else met_cat A ts d.
+
+  Lemma met_cat_single : forall t d y, met_cat A [t] d = Some y -> y = t.
+  Proof.
+    intros t d y E. unfold met_cat in E. destruct (normalize_dim d) as [k|]; [|discriminate].
+    cbn [obind] in E. destruct (k =? 0); simpl in E; injection E as <-; reflexivity.
+  Qed.
+
+  Lemma e_pure_cat_ok : forall ts d tf x, Forall met_ok ts -> e_pure_cat ts d tf = Some x -> met_ok x.
+  Proof.
+    intros ts d tf x H E. unfold e_pure_cat in E. destruct tf; [|eapply met_cat_ok; eauto].
+    destruct ts as [|t0 [|t1 ts']].
+    - simpl in E. discriminate.
+    - simpl in E. injection E as <-. inversion H; assumption.
+    - rewrite (cat_tensor_data_met A junk_o junk_v t0 t1 ts' d) in E.
+      destruct (met_cat A (t0 :: t1 :: ts') d) as [y|] eqn:Ey; [|discriminate]. simpl in E. injection E as <-.
+      eapply met_cat_ok; eauto.
+  Qed.
+
+  Lemma e_cat_spec : forall (st st' : estore) hs d tf r, e_cat A junk_o junk_v st hs d tf = Some (st', r) ->
+    (forall h0, e_buf h0 < length st -> e_read st' h0 = e_read st h0)
+    /\ ((exists h, hs = [h] /\ st' = st /\ r = h) \/ e_buf r = length st)
+    /\ e_read st' r = (ts <- mapM (e_read st) hs ;; e_pure_cat ts d tf).
+  Proof.
+    intros st st' hs d tf r E. destruct (e_cat_frame st st' hs d tf r E) as [Hfr Hcase].
+    split; [exact Hfr|]. split; [destruct Hcase as [H|[b [_ H]]]; auto|].
+    unfold e_cat in E. destruct (mapM (RaggedStore.e_read A st) hs) as [ts|] eqn:Ets; [|discriminate].
+    cbn [obind] in *. pose proof (mapM_e_read_ok st hs ts Ets) as Hok.
+    assert (Hfresh : (x <- e_pure_cat ts d tf ;; Some (e_new A st x)) = Some (st', r) ->
+                     e_read st' r = e_pure_cat ts d tf).
+    { intros E'. destruct (e_pure_cat ts d tf) as [x|] eqn:Ep; [|discriminate]. cbn [obind] in E'.
+      pose proof (e_new_spec st x (e_pure_cat_ok ts d tf x Hok Ep)) as Hn. destruct (e_new A st x) as [s2 h2].
+      injection E' as <- <-. destruct Hn as [_ [_ Hr]]. exact Hr. }
+    destruct hs as [|h [|h' hs']].
+    - apply Hfresh. exact E.
+    - simpl in Ets. destruct (RaggedStore.e_read A st h) as [t|] eqn:Et; [|discriminate]. injection Ets as <-.
+      unfold e_pure_cat. destruct tf.
+      + injection E as <- <-. rewrite Et. reflexivity.
+      + destruct (met_cat A [t] d) as [y|] eqn:Ey; [|discriminate]. cbn [obind] in E. injection E as <- <-.
+        rewrite Et. f_equal. symmetry. eapply met_cat_single. exact Ey.
+    - apply Hfresh. exact E.
   Qed.
 End StoreProofs.
